@@ -30,8 +30,11 @@ def content_pool():
     return _POOL
 
 
-def make_workspaces(rng, root, nwriters, rounds):
+def make_workspaces(rng, root, nwriters, rounds, large=False):
     pool = content_pool()
+    if large:
+        # files above the large-file threshold of very different sizes: the hashing pool finishes them out of order
+        pool = pool[:6] + [b"L" * (5 * 2**20 + 7), b"M" * (2**20 + 11), b"N" * (2**20 + 13), b"O" * (3 * 2**20 + 1)]
     plan = []
     for w in range(nwriters):
         ws_list = []
@@ -39,6 +42,9 @@ def make_workspaces(rng, root, nwriters, rounds):
             files = {}
             for j in range(rng.randrange(2, 6)):
                 files[("f%d" % j,) if rng.random() < 0.6 else ("sub", "g%d" % j)] = rng.choice(pool)
+            if large:
+                for j, c in enumerate(rng.sample(pool[6:], 3)):
+                    files[("big%d" % j,)] = c
             if rng.random() < 0.6:
                 files[("copy_of_f",)] = files[sorted(files)[0]]  # identical bytes at the same level
                 if ("f0",) in files:
@@ -63,14 +69,14 @@ def expected(plan):
     return objs, trees
 
 
-def run_threads(ctx, rng, nwriters, rounds):
+def run_threads(ctx, rng, nwriters, rounds, large=False):
     from dvc_data.hashfile.build import build
     from dvc_data.hashfile.db.local import LocalHashFileDB
     from dvc_data.hashfile.state import State
     from dvc_data.hashfile.transfer import transfer
 
     root = ctx.mkdtemp()
-    plan = make_workspaces(rng, root, nwriters, rounds)
+    plan = make_workspaces(rng, root, nwriters, rounds, large)
     fs = stores.fs_local()
     odb_path = os.path.join(root, "odb")
     os.makedirs(odb_path)
@@ -413,8 +419,12 @@ def run(ctx):
     for i in range(ctx.n(14, 150)):
         n = rng.choice([2, 3, 4, 8])
         rounds = rng.choice([1, 2, 3])
-        root, plan, errors, results = run_threads(ctx, rng, n, rounds)
-        case = {"mode": "threads", "writers": n, "rounds": rounds, "run": i,
+        large = i in (1, 9) or (ctx.tier == "thorough" and i % 10 == 1)
+        if large:
+            n, rounds = min(n, 3), 1
+        root, plan, errors, results = run_threads(ctx, rng, n, rounds, large)
+        ctx.count("threads:large-files=%s" % large)
+        case = {"mode": "threads", "writers": n, "rounds": rounds, "run": i, "large_files": large,
                 "workspaces": [[{"/".join(k): md5hex(v) for k, v in files.items()} for _, files in wl] for wl in plan]}
         ctx.case(case)
         ctx.count("threads:%d" % n)
